@@ -321,6 +321,72 @@ def cursor_rule(ctx):
     return obs
 
 
+def wave8_rules(ctx):
+    """obligations added after the eighth wave of seeded changes"""
+    import guards as gd
+    ob = ctx.ob
+    tc = ctx.tc
+    obs = []
+    # (1) names are duplicates when they are equal, not when they are similar
+    for f in tc.fns:
+        if f.body and f.name == "name_eq" and "parse" in f.module:
+            tail = f.body["stmts"][-1].get("e") if f.body["stmts"] and f.body["stmts"][-1].get("k") == "expr" else None
+            exact = tail is not None and tail.get("k") == "binary" and tail["op"] == "==" and not any(x.get("k") == "mcall" and re.search(r"ignore|lower|upper|trim|fold", x["m"]) for x in sir.walk(tail))
+            exact = exact or (tail is not None and tail.get("k") == "mcall" and tail["m"] == "eq" and not any(x.get("k") == "mcall" and re.search(r"ignore|lower|upper|trim|fold", x["m"]) for x in sir.walk(tail)))
+            obs.append(ob("C15.dup/exact-names/%s" % (f.base or "?"), exact, ctx.where(f), "%s::name_eq compares the names for equality: %s" % (f.base, exact),
+                          witness=None if exact else "<my-comp itemId=.. itemid=..>: a false DuplicatedAttribute, and the second attribute is dropped"))
+    # (2) the diagnostic sink keeps every diagnostic
+    for f in tc.fns:
+        if f.body and f.base == "ParseState" and f.name == "add_warning":
+            G = gd.guards_of(f.body)
+            pushes = [n for n in sir.walk(f.body) if n.get("k") == "mcall" and n["m"] == "push" and "warnings" in sir.expr_str(n["recv"])]
+            okw = bool(pushes) and not any(G.get(id(p_)) for p_ in pushes) and not any(n.get("k") == "return" for n in sir.walk(f.body))
+            obs.append(ob("C15.silent/sink", okw, ctx.where(f), "ParseState::add_warning records every diagnostic it is given: %s" % okw,
+                          witness=None if okw else "after 100 notes a missing end tag is no longer reported"))
+    # (3) a <wxs> without a module name is flagged whatever else it carries
+    ep = [g for g in tc.fns if g.base == "Element" and g.name == "parse" and g.body]
+    if ep:
+        g = ep[0]
+        G = gd.guards_of(g.node.get("body") or g.body)
+        for n in sir.walk(g.node, into_items=True):
+            if n.get("k") == "mcall" and n["m"].startswith("add_warning") and n["args"] and sir.expr_str(n["args"][0]).endswith("MissingModuleName") and "tag_name" in sir.expr_str(n["args"][-1]):
+                gs_ = G.get(id(n)) or []
+                idx = [i for i, (kind, subj, pol) in enumerate(gs_) if "script_module" in (sir.expr_str(subj) if kind == "cond" else sir.expr_str(subj[0]))]
+                if not idx:
+                    obs.append(ob("C15.kinds/site/MissingModuleName-wxs", None, ctx.where(g), "the <wxs> module check is not in a form this rule reads"))
+                    continue
+                inner = [(sir.expr_str(subj) if kind == "cond" else sir.expr_str(subj[0]) + "~" + subj[1])[:50] for kind, subj, pol in gs_[idx[-1] + 1:]]
+                obs.append(ob("C15.kinds/site/MissingModuleName-wxs", not inner, ctx.where(g), "a <wxs> without `module` is always flagged" if not inner else "a <wxs> without `module` is flagged only under %s" % inner[:2],
+                              witness=None if not inner else "<wxs src=\"x.wxs\"/> is accepted silently"))
+    # (4) only `\n` counts as a line break, in every cursor method alike (CR LF must not count twice; a lone CR is not a break
+    #     for one method and a column for another)
+    for f in tc.fns:
+        if not f.body or f.base != "ParseState":
+            continue
+        G = None
+        for n in sir.walk(f.body):
+            if n.get("k") == "binary" and n["op"] == "+=" and sir.expr_str(n["l"]) == "self.line":
+                G = G or gd.guards_of(f.body)
+                chars = set()
+                for kind, subj, pol in G.get(id(n), []):
+                    s_ = subj if kind == "cond" else subj[0]
+                    chars |= set(x["v"] for x in sir.walk(s_) if x.get("k") == "lit" and x.get("t") in ("char", "byte", "str") and isinstance(x.get("v"), str))
+                    if kind == "pat":
+                        chars |= set(re.findall(r"'(\\?.)'", subj[1]))
+                other = sorted(c_ for c_ in chars if c_ not in ("\n", "\\n"))
+                if chars:
+                    obs.append(ob("C15.cursor/line-break/%s" % f.name, not other, ctx.where(f), "the line counter advances on `\\n` only" if not other else "the line counter also advances on %r" % other,
+                                  witness=None if not other else "in a CRLF source a diagnostic is reported on a line that does not exist"))
+    # (5) a conditional nested in either branch needs no parentheses (shared with C03.prec/parser/Cond)
+    from rules.c03 import parser_cond_rule
+    for x in parser_cond_rule(ctx):
+        if x["key"] == "C03.prec/parser/Cond":
+            x = dict(x)
+            x["key"] = "C15.clean/nested-conditional"
+            obs.append(x)
+    return obs
+
+
 def run(ctx):
     obs = silent_rule(ctx)
     obs += kinds_rule(ctx)
@@ -328,4 +394,5 @@ def run(ctx):
     obs += prefix_rule(ctx)
     obs += entity_rule(ctx)
     obs += cursor_rule(ctx)
+    obs += wave8_rules(ctx)
     return obs
